@@ -68,16 +68,20 @@ def _proc_stats(pid):
         return 0, 0
 
 
-def run_harnesses(harnesses, jobs=8, timeout=3000, playback=False, mem_limit_gb=10, per_harness_s=900):
+def run_harnesses(harnesses, jobs=8, timeout=3000, playback=False, mem_limit_gb=10, per_harness_s=900, extra_args=None):
     d, repo = make_scratch(harnesses)
     try:
-        cmd = ['cargo', 'kani', '-p', 'parity-scale-codec', '--features', FEATURES, '--exact', '--output-format', 'terse']
+        feats = (harnesses[0].get('features') if harnesses else None) or FEATURES
+        cmd = ['cargo', 'kani', '-p', 'parity-scale-codec', '--features', feats, '--exact', '--output-format', 'terse']
         if playback:
             cmd += ['-Z', 'concrete-playback', '--concrete-playback=print']
         else:
             cmd += ['-j', str(jobs)]
         for h in harnesses:
             cmd += ['--harness', full_name(h)]
+        if extra_args is None and harnesses and all(h.get('kani_args') == harnesses[0].get('kani_args') for h in harnesses):
+            extra_args = harnesses[0].get('kani_args')
+        cmd += list(extra_args or [])
         env = dict(ENV, CARGO_TARGET_DIR=os.path.join(d, 'target'))
         t0 = time.time()
         killed = []
@@ -166,7 +170,7 @@ def native_replay(h, vals):
         env = dict(ENV, CARGO_TARGET_DIR=os.path.join(d, 'target'), RUSTFLAGS='--cfg psc_verif_replay',
                    PSC_VERIF_REPLAY_VALUES=';'.join(','.join(str(b) for b in v) for v in vals))
         test = 'replay_' + h['name']
-        cmd = ['cargo', 'test', '--offline', '--lib', '-p', 'parity-scale-codec', '--features', FEATURES, test, '--', '--exact',
+        cmd = ['cargo', 'test', '--offline', '--lib', '-p', 'parity-scale-codec', '--features', h.get('features') or FEATURES, test, '--', '--exact',
                '%s::%s::%s' % (h['modpath'], '__verif_' + re.sub(r'\W', '_', h['file'][:-3]), test), '--nocapture']
         p = subprocess.run(cmd, cwd=repo, env=env, stdout=subprocess.PIPE, stderr=subprocess.STDOUT, text=True, timeout=1800)
         out = p.stdout
@@ -182,8 +186,19 @@ def run_for_property(prop, tier):
     sel = [h for h in reg if prop in h['props'] and (tier == 'thorough' or h.get('tier', 'quick') == 'quick')]
     if not sel:
         return None
-    r = run_harnesses(sel, jobs=6)
-    per = parse(r['out'], sel)
+    # harnesses that need extra Kani/CBMC arguments (e.g. the allocation-leak check) run in their own invocation
+    groups = {}
+    for h in sel:
+        groups.setdefault((tuple(h.get('kani_args') or ()), h.get('features')), []).append(h)
+    per = {}
+    r = None
+    for (args, _feats), hs_ in groups.items():
+        r_ = run_harnesses(hs_, jobs=6, extra_args=list(args))
+        per.update(parse(r_['out'], hs_))
+        if r is None:
+            r = r_
+        else:
+            r = {'rc': r['rc'] or r_['rc'], 'out': r['out'] + '\n' + r_['out'], 'cmd': r['cmd'] + ' ; ' + r_['cmd'], 'wall_s': r.get('wall_s', 0) + r_.get('wall_s', 0)}
     hs = []
     compile_failed = not per and r['rc'] != 0
     for h in sel:
